@@ -5,6 +5,17 @@ let rec pos_of_int n = if n = 1 then XH else if n land 1 = 0 then XO (pos_of_int
 let z_of_int n = if n = 0 then Z0 else if n > 0 then Zpos (pos_of_int n) else Zneg (pos_of_int (-n))
 let rec int_of_pos = function XH -> 1 | XO p -> 2 * int_of_pos p | XI p -> 2 * int_of_pos p + 1
 let int_of_z = function Z0 -> 0 | Zpos p -> int_of_pos p | Zneg p -> - (int_of_pos p)
+(* exact decimal output for every Z (no silent wrap of OCaml's 63-bit int): numbers of up to 60 bits take the int path, larger ones
+   are doubled digit-wise in a little-endian decimal digit list *)
+let rec bits_of_pos = function XH -> 1 | XO p -> 1 + bits_of_pos p | XI p -> 1 + bits_of_pos p
+let rec dbl ds c = match ds with
+  | [] -> if c = 0 then [] else [c]
+  | d :: r -> let v = 2 * d + c in (v mod 10) :: dbl r (v / 10)
+let rec dec_of_pos = function XH -> [1] | XO p -> dbl (dec_of_pos p) 0 | XI p -> dbl (dec_of_pos p) 1
+let string_of_pos p =
+  if bits_of_pos p <= 60 then string_of_int (int_of_pos p)
+  else String.concat "" (List.rev_map string_of_int (dec_of_pos p))
+let string_of_z = function Z0 -> "0" | Zpos p -> string_of_pos p | Zneg p -> "-" ^ string_of_pos p
 let () =
   let buf = Buffer.create 65536 in
   (try
@@ -18,7 +29,7 @@ let () =
           | Some f ->
             let args = List.filter (fun s -> s <> "") args in
             let r = f (List.map (fun s -> z_of_int (int_of_string s)) args) in
-            List.iteri (fun i z -> if i > 0 then Buffer.add_char buf ' '; Buffer.add_string buf (string_of_int (int_of_z z))) r;
+            List.iteri (fun i z -> if i > 0 then Buffer.add_char buf ' '; Buffer.add_string buf (string_of_z z)) r;
             Buffer.add_char buf '\n'));
       if Buffer.length buf > 60000 then (print_string (Buffer.contents buf); Buffer.clear buf)
     done
